@@ -197,9 +197,10 @@ def chopped_lattice(draw, mode: str, graded: bool = False, **kw):
         for fi in big:
             if draw(st.booleans()) and fam_count[fi] is not None:
                 rest = [m for m in fams[fi] if m != (chops[fi]["cell"], chops[fi]["gdir"])]
-                c, d = draw(st.sampled_from(rest))
-                # an identical specification on another member of the family
-                chops.append({"cell": c, "gdir": d, "args": chops[fi]["args"]})
+                # an identical specification on one or several other members of the family
+                extra = draw(st.lists(st.sampled_from(rest), min_size=1, max_size=min(3, len(rest)), unique=True))
+                for c, d in extra:
+                    chops.append({"cell": c, "gdir": d, "args": chops[fi]["args"]})
     if mode == "conflict":
         if not big:
             return None
